@@ -18,6 +18,9 @@ func init() {
 					}
 				}
 			}
+			for n := 1; n <= 3; n++ {
+				r = append(r, Oblig{Harness: "vh_C04_return", Globals: map[string]int{"vhNRet": n}, Unroll: 12})
+			}
 			return r
 		},
 		Bounds:      []string{"1..2 (thorough 3) operands on each side", "destinations and sources: any of 4 frame slots (every aliasing pattern)", "any subset of destinations blank", "= and := forms", "variables of type int (any value in (-1000,1000)) or [2]int (arrays are values: assignment copies)"},
